@@ -28,6 +28,15 @@ def run(ctx):
     rule_T8i(ctx)
     rule_M3(ctx)
     rule_M1(ctx)      # a stored point lies inside the bound it was drawn from
+    # ... and not inside a member the union has dropped since: proposals cached before a
+    # split / trim are discarded
+    from ..loader import helper_view
+    from ..lockstep import ExpandingTracker
+    from .C13 import rule_T9, G_UNION
+    for q in ('Union.split', 'Union.trim'):
+        fq = helper_view(ctx.program, ctx.program.func(q))
+        rule_T9(ctx, fq, ExpandingTracker(fq, G_UNION.members + ['log_v_all'],
+                                          arrays={'block', 'log_v_all'}))
     rule_M6(ctx)
     rule_F7(ctx)      # ... and user code cannot overwrite it before it is stored
     rule_F6(ctx)
@@ -35,6 +44,10 @@ def run(ctx):
     # of the shell numbering is followed by a full write
     from ..initrules import rule_I1
     rule_I1(ctx, {'rows'})
+    # ... and the bounds a resumed sampler tests the stored points against are the ones they
+    # were drawn from: nothing of a fitted network is lost on the way through the file
+    from ..persist import rule_P8
+    rule_P8(ctx)
     rule_P4_sampler_subset(ctx, ('points', 'bound', 'shell_t', 'pop_shell', 'add_bound',
                                  'first-batch', 'update-shell', 'batch-checkpointed'),
                            'points, bounds and the transfer set')
